@@ -277,3 +277,426 @@ theorem gr_mod_t_and_divide_q_last_ntt_inplace_eq (r : RNSTool) (tables : Array 
   show Except.ok _ = Except.ok _
   congr 1
   simp [List.range_eq_range', List.map_map, Function.comp_def]
+
+/-! ### `divide_and_round_q_last_ntt_inplace` -/
+
+def gr_NL (tables : Array NTTTables) (i : Nat) (x : List Nat) : List Nat := (nttLazy (tables.getD i gr_tdflt) x.toArray).toList
+
+/-- the transforms keep the length `2^k` of their table (no well-formedness needed) -/
+theorem gr_runFwdA_size (A : Arith Nat MulOperand) (k : Nat) (roots : Nat → MulOperand) (a : Array Nat) (h : a.size = 2^k) :
+    ∀ l, (runFwdA A k roots a l).size = 2^k := by
+  intro l; cases l with
+  | zero => exact h
+  | succ l => simp [runFwdA]
+theorem gr_runInvA_size (A : Arith Nat MulOperand) (k : Nat) (roots : Nat → MulOperand) (a : Array Nat) (h : a.size = 2^k) :
+    ∀ l, (runInvA A k roots a l).size = 2^k := by
+  intro l; cases l with
+  | zero => exact h
+  | succ l => simp [runInvA]
+theorem gr_nttLazy_size (t : NTTTables) (a : Array Nat) (h : a.size = 2^t.k) : (nttLazy t a).size = 2^t.k := by
+  unfold nttLazy transformToRev; exact gr_runFwdA_size _ _ _ _ h _
+theorem gr_ntt_size (t : NTTTables) (a : Array Nat) (h : a.size = 2^t.k) : (ntt t a).size = 2^t.k := by
+  unfold ntt; simp only [Array.size_map]; exact gr_nttLazy_size t a h
+theorem gr_intt_size (t : NTTTables) (a : Array Nat) (h : a.size = 2^t.k) : (intt t a).size = 2^t.k := by
+  unfold intt inttLazy transformFromRev; simp only [Array.size_map]; exact gr_runInvA_size _ _ _ _ h _
+
+theorem gr_zipM'_eq (a b : Array Nat) (f : Nat → Nat → R Nat) :
+    zipM' a b f = ((List.range' 0 a.size).mapM (fun j => f (a.toList.getD j 0) (b.toList.getD j 0)) >>= fun ys => .ok ys.toArray) := by
+  unfold zipM'
+  rw [gr_foldlM_push, List.range_eq_range']
+  simp only [gr_arr_getD]
+  cases (List.range' 0 a.size).mapM (fun j => f (a.toList.getD j 0) (b.toList.getD j 0)) with
+  | error e => rfl
+  | ok ys => rw [gr_ok_bind, gr_ok_bind]; simp
+
+theorem gr_mapM_map_ok {α β γ : Type} (F : α → R β) (g : β → γ) (l : List α) :
+    l.mapM (fun i => F i >>= fun c => .ok (g c)) = (l.mapM F >>= fun outs => .ok (outs.map g)) := by
+  induction l with
+  | nil => rfl
+  | cons a l ih =>
+    rw [gr_mapM_cons, gr_mapM_cons, ih]
+    cases F a with
+    | error e => rfl
+    | ok b =>
+      rw [gr_ok_bind, gr_ok_bind, gr_ok_bind]
+      cases l.mapM F with
+      | error e => rfl
+      | ok bs => rfl
+
+theorem gr_darn_model (r : RNSTool) (tables : Array NTTTables) (p : RnsPoly)
+    (hq : ∀ i, i < r.baseQ.size → (r.baseQ.q i).WF) (hs : 1 ≤ r.baseQ.size) :
+    r.divideAndRoundQLastNtt tables p =
+      ((intt (tables.getD (r.baseQ.size - 1) gr_tdflt) (p.getD (r.baseQ.size - 1) #[])).toList.mapM
+          (fun x => addMod x ((r.baseQ.q (r.baseQ.size - 1)).value / 2) (r.baseQ.q (r.baseQ.size - 1))) >>= fun lastc =>
+       (List.range' 0 (r.baseQ.size - 1)).mapM (fun i => gr_darnComp (r.baseQ.q i) (r.baseQ.q (r.baseQ.size - 1)) ((r.baseQ.q (r.baseQ.size - 1)).value / 2)
+          (r.invQLastModQ.getD i default) (gr_NL tables i) lastc (p.getD i #[]).toList) >>= fun outs =>
+       .ok ((outs.map List.toArray).toArray.push lastc.toArray)) := by
+  unfold RNSTool.divideAndRoundQLastNtt
+  dsimp only
+  rw [show RNSTool.divideAndRoundQLastNtt.dflt = gr_tdflt from rfl, gr_mapM'_eq]
+  generalize intt (tables.getD (r.baseQ.size - 1) gr_tdflt) (p.getD (r.baseQ.size - 1) #[]) = lastI
+  cases hm : lastI.toList.mapM (fun x => addMod x ((r.baseQ.q (r.baseQ.size - 1)).value / 2) (r.baseQ.q (r.baseQ.size - 1))) with
+  | error e => rfl
+  | ok lastc =>
+    have hlt : ∀ x ∈ lastc, x < 2^64 := gr_mapM_forall _ (fun z => z < 2^64) (fun x y h => gr_addMod_lt _ _ _ _ h) _ _ hm
+    have hh : (r.baseQ.q (r.baseQ.size - 1)).value / 2 < 2^64 := by have := (hq (r.baseQ.size - 1) (by omega)).lt; omega
+    simp only [gr_ok_bind]
+    refine Eq.trans (congrArg (fun m => m >>= _) (gr_mapM_congr _ (fun i => gr_darnComp (r.baseQ.q i) (r.baseQ.q (r.baseQ.size - 1)) ((r.baseQ.q (r.baseQ.size - 1)).value / 2)
+            (r.invQLastModQ.getD i default) (gr_NL tables i) lastc (p.getD i #[]).toList >>= fun c => .ok c.toArray) _ ?hb)) ?rest
+    case hb =>
+      intro i hi
+      rw [List.mem_range] at hi
+      have hb := hq i (by omega)
+      have hb0 : 0 < (r.baseQ.q i).value := by have := hb.two_le; omega
+      have e0 : (if (r.baseQ.q i).value < (r.baseQ.q (r.baseQ.size - 1)).value then mapM' lastc.toArray (fun x => barrett64 x (r.baseQ.q i)) else pure lastc.toArray)
+          = .ok (if (r.baseQ.q i).value < (r.baseQ.q (r.baseQ.size - 1)).value then lastc.map (fun x => x % (r.baseQ.q i).value) else lastc).toArray := by
+        split
+        · rw [mapM'_ok (g := fun x => x % (r.baseQ.q i).value) (fun x hx => barrett64_exact hb (hlt x (by simpa using hx)))]; simp
+        · rfl
+      rw [ite_bind_join, e0, ok_bind, barrett64_exact hb hh, ok_bind, gr_ckSub_ok (Nat.mod_lt _ hb0).le, ok_bind, gr_mapM'_eq]
+      unfold gr_darnComp
+      cases (if (r.baseQ.q i).value < (r.baseQ.q (r.baseQ.size - 1)).value then lastc.map (fun x => x % (r.baseQ.q i).value) else lastc).mapM
+          (fun x => ckAdd x ((r.baseQ.q i).value - (r.baseQ.q (r.baseQ.size - 1)).value / 2 % (r.baseQ.q i).value)) with
+      | error e => rfl
+      | ok temp1 =>
+        simp only [gr_ok_bind]
+        rw [gr_zipM'_eq]
+        unfold gr_NL
+        simp only [Array.length_toList]
+        cases (List.range' 0 (p.getD i #[]).size).mapM (fun j => ckSub ((r.baseQ.q i).value * 4) ((nttLazy (tables.getD i gr_tdflt) temp1.toArray).toList.getD j 0)
+            >>= fun z => ckAdd ((p.getD i #[]).toList.getD j 0) z) with
+        | error e => rfl
+        | ok d =>
+          simp only [gr_ok_bind]
+          rw [mapM'_ok (g := fun x => mulOpV x (r.invQLastModQ.getD i default) (r.baseQ.q i)) (fun x _ => gr_mulOperandMod _ _ _)]
+          simp
+    case rest =>
+      rw [List.range_eq_range', gr_mapM_map_ok]
+      cases (List.range' 0 (r.baseQ.size - 1)).mapM (fun i => gr_darnComp (r.baseQ.q i) (r.baseQ.q (r.baseQ.size - 1)) ((r.baseQ.q (r.baseQ.size - 1)).value / 2)
+          (r.invQLastModQ.getD i default) (gr_NL tables i) lastc (p.getD i #[]).toList) with
+      | error e => rfl
+      | ok outs => rfl
+
+/-- **`RNSTool::divide_and_round_q_last_ntt_inplace` (generated from src/util/rns.rs) = the hand model**; the two abstract function inputs of
+    the generated code (`inverse_ntt_negacyclic_harvey`, `ntt_negacyclic_harvey_lazy` of table `i`) are instantiated with the model's `intt` /
+    `nttLazy` of `tables[i]`.  About the tables only their size parameter is used (`2^k = n`); no range assumption on the coefficients: the
+    lazy additions / subtractions trap on both sides at the same point. -/
+theorem gr_divide_and_round_q_last_ntt_inplace_eq (r : RNSTool) (tables : Array NTTTables) (p : RnsPoly)
+    (hs : 1 ≤ r.baseQ.size) (hq : ∀ i, i < r.baseQ.size → (r.baseQ.q i).WF) (hinv : r.baseQ.size - 1 ≤ r.invQLastModQ.size)
+    (hsn : r.baseQ.size * r.n < 2^64) (hs64 : r.baseQ.size < 2^64) (hp : gr_Shape r p)
+    (hk : ∀ i, i < r.baseQ.size → 2^(tables.getD i gr_tdflt).k = r.n) :
+    GenR.divide_and_round_q_last_ntt_inplace (flatP p) r.baseQ.size r.baseQ.base.toList r.n r.invQLastModQ.toList
+        (fun i x => .ok (gr_IT tables i x)) (fun i x => .ok (gr_NL tables i x))
+      = (r.divideAndRoundQLastNtt tables p).map flatP := by
+  obtain ⟨hcs, hn⟩ := gr_shape_cs hp
+  have hlast : gr_IT tables (r.baseQ.size - 1) ((p.toList.map Array.toList).getD (r.baseQ.size - 1) [])
+      = (intt (tables.getD (r.baseQ.size - 1) gr_tdflt) (p.getD (r.baseQ.size - 1) #[])).toList := by
+    unfold gr_IT; rw [gr_cs_getD]
+  unfold flatP
+  rw [gr_darn_list r.baseQ.base.toList r.invQLastModQ.toList r.baseQ.size r.n (gr_IT tables) (gr_NL tables) _ hs (by simp [RNSBase.size])
+    (by simpa using hinv) (by intro i hi; rw [gr_q_toList]; exact hq i hi) hsn hs64 hcs hn
+    (by rw [hlast, Array.length_toList, gr_intt_size _ _ (by rw [hp.2 _ (by omega), hk _ (by omega)]), hk _ (by omega)])
+    (by intro i x hi hx; unfold gr_NL; rw [Array.length_toList, gr_nttLazy_size _ _ (by rw [List.size_toArray, hx, hk i (by omega)]), hk i (by omega)]),
+    gr_darn_model r tables p hq hs, hlast]
+  simp only [gr_q_toList, gr_cs_getD, gr_ops_toList]
+  cases (intt (tables.getD (r.baseQ.size - 1) gr_tdflt) (p.getD (r.baseQ.size - 1) #[])).toList.mapM
+          (fun x => addMod x ((r.baseQ.q (r.baseQ.size - 1)).value / 2) (r.baseQ.q (r.baseQ.size - 1))) with
+  | error e => rfl
+  | ok lastc =>
+    simp only [gr_ok_bind]
+    cases (List.range' 0 (r.baseQ.size - 1)).mapM (fun i => gr_darnComp (r.baseQ.q i) (r.baseQ.q (r.baseQ.size - 1)) ((r.baseQ.q (r.baseQ.size - 1)).value / 2)
+          (r.invQLastModQ.getD i default) (gr_NL tables i) lastc (p.getD i #[]).toList) with
+    | error e => rfl
+    | ok outs =>
+      simp only [gr_ok_bind]
+      show Except.ok _ = Except.ok _
+      congr 1
+      simp [List.map_map, Function.comp_def]
+
+/-! ### `mod_t_and_divide_q_last_inplace` (coefficient form) -/
+
+theorem gr_foldlM_push' {α : Type} (step : Array Nat → α → R (Array Nat)) (F : α → R Nat) : ∀ (l : List α) (acc : Array Nat),
+    (∀ acc x, x ∈ l → step acc x = (F x >>= fun y => .ok (acc.push y))) →
+    l.foldlM step acc = (l.mapM F >>= fun ys => .ok (acc ++ ys.toArray)) := by
+  intro l
+  induction l with
+  | nil => intro acc _; rw [gr_mapM_nil, gr_ok_bind]; simp [pure, Except.pure]
+  | cons a l ih =>
+    intro acc h
+    rw [List.foldlM_cons, gr_mapM_cons, h acc a (by simp)]
+    cases hF : F a with
+    | error e => rfl
+    | ok y =>
+      rw [gr_ok_bind, gr_ok_bind, gr_ok_bind, ih (acc.push y) (fun acc x hx => h acc x (by simp [hx]))]
+      cases l.mapM F with
+      | error e => rfl
+      | ok ys => rw [gr_ok_bind, gr_ok_bind, gr_ok_bind]; simp
+
+theorem gr_mtd_model (r : RNSTool) (p : RnsPoly)
+    (hq : ∀ i, i < r.baseQ.size → (r.baseQ.q i).WF) (hs : 1 ≤ r.baseQ.size) (ht : r.t.WF) (hinvt : r.invQLastModT < 2^64) (hp : gr_Shape r p)
+    (hw : ∀ x ∈ p.getD (r.baseQ.size - 1) #[], x < 2^64) :
+    r.modTAndDivideQLast p =
+      ((List.range' 0 (r.baseQ.size - 1)).mapM (fun i => gr_mtdComp (r.baseQ.q i) (r.baseQ.q (r.baseQ.size - 1)).value (r.invQLastModQ.getD i default)
+          (gr_negList r.t r.invQLastModT (p.getD (r.baseQ.size - 1) #[]).toList) (p.getD (r.baseQ.size - 1) #[]).toList (p.getD i #[]).toList) >>= fun outs =>
+       .ok ((outs.map List.toArray).toArray.push (p.getD (r.baseQ.size - 1) #[]))) := by
+  have ht0 : 0 < r.t.value := by have := ht.two_le; omega
+  have ht61 := ht.lt
+  have hL := hq (r.baseQ.size - 1) (by omega)
+  have hI := hp.2 (r.baseQ.size - 1) (by omega)
+  unfold RNSTool.modTAndDivideQLast
+  dsimp only
+  generalize p.getD (r.baseQ.size - 1) #[] = lastc at hI hw ⊢
+  have h0 : mapM' lastc (fun x => do let y ← barrett64 x r.t; negateMod y r.t) = .ok (lastc.map (fun x => (r.t.value - x % r.t.value) % r.t.value)) := by
+    apply mapM'_ok
+    intro x hx
+    rw [barrett64_exact ht (hw x hx), ok_bind]
+    exact negateMod_exact ht (Nat.mod_lt _ ht0).le
+  have hneg : (if r.invQLastModT ≠ 1 then mapM' (lastc.map (fun x => (r.t.value - x % r.t.value) % r.t.value)) (fun x => mulMod x r.invQLastModT r.t)
+        else pure (lastc.map (fun x => (r.t.value - x % r.t.value) % r.t.value))) = .ok (gr_negList r.t r.invQLastModT lastc.toList).toArray := by
+    unfold gr_negList
+    by_cases h1 : r.invQLastModT ≠ 1
+    · rw [if_pos h1, if_pos h1, mapM'_ok (g := fun x => (x * r.invQLastModT) % r.t.value)]
+      · congr 1; apply Array.ext'; simp
+      · intro x hx
+        obtain ⟨y, -, rfl⟩ := Array.mem_map.mp hx
+        have := Nat.mod_lt (r.t.value - y % r.t.value) ht0
+        exact mulMod_exact ht (by omega) hinvt
+    · rw [if_neg h1, if_neg h1]; show Except.ok _ = Except.ok _; congr 1; apply Array.ext'; simp
+  rw [h0, ok_bind, ite_bind_join, hneg, ok_bind]
+  have hnegw := gr_negList_lt r.t ht r.invQLastModT lastc.toList
+  refine Eq.trans (congrArg (fun m => m >>= _) (gr_mapM_congr _ (fun i => gr_mtdComp (r.baseQ.q i) (r.baseQ.q (r.baseQ.size - 1)).value (r.invQLastModQ.getD i default)
+          (gr_negList r.t r.invQLastModT lastc.toList) lastc.toList (p.getD i #[]).toList >>= fun c => .ok c.toArray) _ ?hb)) ?rest
+  case hb =>
+    intro i hi
+    rw [List.mem_range] at hi
+    have hb := hq i (by omega)
+    have hb0 : 0 < (r.baseQ.q i).value := by have := hb.two_le; omega
+    have hb61 := hb.lt
+    have hpi := hp.2 i (by omega)
+    rw [mapM'_ok (g := fun x => (x % (r.baseQ.q i).value * (r.baseQ.q (r.baseQ.size - 1)).value) % (r.baseQ.q i).value)
+        (by intro x hx
+            rw [barrett64_exact hb (hnegw x (by simpa using hx)), ok_bind]
+            have := Nat.mod_lt x hb0; have := hL.lt
+            exact mulMod_exact hb (by omega) (by omega)), ok_bind,
+      gr_foldlM_push' _ (fun j => ckAdd ((p.getD i #[]).getD j 0) ((r.baseQ.q i).value * 2 - lastc.getD j 0 % (r.baseQ.q i).value
+          - ((gr_negList r.t r.invQLastModT lastc.toList).toArray.map (fun x => (x % (r.baseQ.q i).value * (r.baseQ.q (r.baseQ.size - 1)).value) % (r.baseQ.q i).value)).getD j 0))
+        _ _ (by
+          intro acc j _
+          have hc : lastc.getD j 0 < 2^64 := getD_lt_of_forall hw (by norm_num) j
+          have hm := Nat.mod_lt (lastc.getD j 0) hb0
+          have hd : ((gr_negList r.t r.invQLastModT lastc.toList).toArray.map
+              (fun x => (x % (r.baseQ.q i).value * (r.baseQ.q (r.baseQ.size - 1)).value) % (r.baseQ.q i).value)).getD j 0 < (r.baseQ.q i).value := by
+            apply getD_lt_of_forall _ hb0
+            intro x hx
+            obtain ⟨y, -, rfl⟩ := Array.mem_map.mp hx
+            exact Nat.mod_lt _ hb0
+          rw [barrett64_exact hb hc, ok_bind, gr_ckSub_ok (by omega), ok_bind, gr_ckSub_ok (by omega), ok_bind]
+          rfl)]
+    unfold gr_mtdComp
+    simp only [Array.length_toList, hpi, List.range_eq_range', gr_arr_getD, List.map_toArray]
+    cases (List.range' 0 r.n).mapM (fun j => ckAdd ((p.getD i #[]).toList.getD j 0) ((r.baseQ.q i).value * 2 - lastc.toList.getD j 0 % (r.baseQ.q i).value
+          - ((gr_negList r.t r.invQLastModT lastc.toList).map (fun x => (x % (r.baseQ.q i).value * (r.baseQ.q (r.baseQ.size - 1)).value) % (r.baseQ.q i).value)).getD j 0)) with
+    | error e => rfl
+    | ok d =>
+      simp only [gr_ok_bind]
+      rw [mapM'_ok (g := fun x => mulOpV x (r.invQLastModQ.getD i default) (r.baseQ.q i)) (fun x _ => gr_mulOperandMod _ _ _)]
+      simp
+  case rest =>
+    rw [List.range_eq_range', gr_mapM_map_ok]
+    cases (List.range' 0 (r.baseQ.size - 1)).mapM (fun i => gr_mtdComp (r.baseQ.q i) (r.baseQ.q (r.baseQ.size - 1)).value (r.invQLastModQ.getD i default)
+          (gr_negList r.t r.invQLastModT lastc.toList) lastc.toList (p.getD i #[]).toList) with
+    | error e => rfl
+    | ok outs => rfl
+
+/-- **`RNSTool::mod_t_and_divide_q_last_inplace` (generated from src/util/rns.rs) = the hand model** on flat buffers; the trapping `+=` of the
+    inner loop traps on both sides at the same coefficient -/
+theorem gr_mod_t_and_divide_q_last_inplace_eq (r : RNSTool) (p : RnsPoly)
+    (hs : 1 ≤ r.baseQ.size) (hq : ∀ i, i < r.baseQ.size → (r.baseQ.q i).WF) (ht : r.t.WF) (hinvt : r.invQLastModT < 2^64)
+    (hinv : r.baseQ.size - 1 ≤ r.invQLastModQ.size) (hsn : r.baseQ.size * r.n < 2^64) (hs64 : r.baseQ.size < 2^64) (hp : gr_Shape r p)
+    (hw : ∀ x ∈ p.getD (r.baseQ.size - 1) #[], x < 2^64) :
+    GenR.mod_t_and_divide_q_last_inplace (flatP p) r.baseQ.size r.baseQ.base.toList r.n r.invQLastModQ.toList r.t r.invQLastModT
+      = (r.modTAndDivideQLast p).map flatP := by
+  obtain ⟨hcs, hn⟩ := gr_shape_cs hp
+  unfold flatP
+  rw [gr_mtd_list r.baseQ.base.toList r.invQLastModQ.toList r.t r.invQLastModT r.baseQ.size r.n _ hs (by simp [RNSBase.size])
+    (by simpa using hinv) (by intro i hi; rw [gr_q_toList]; exact hq i hi) ht hinvt hsn hs64 hcs hn
+    (by rw [gr_cs_getD]; intro x hx; exact hw x (by simpa using hx)),
+    gr_mtd_model r p hq hs ht hinvt hp hw]
+  simp only [gr_q_toList, gr_cs_getD, gr_ops_toList]
+  cases (List.range' 0 (r.baseQ.size - 1)).mapM (fun i => gr_mtdComp (r.baseQ.q i) (r.baseQ.q (r.baseQ.size - 1)).value (r.invQLastModQ.getD i default)
+          (gr_negList r.t r.invQLastModT (p.getD (r.baseQ.size - 1) #[]).toList) (p.getD (r.baseQ.size - 1) #[]).toList (p.getD i #[]).toList) with
+  | error e => rfl
+  | ok outs =>
+    simp only [gr_ok_bind]
+    show Except.ok _ = Except.ok _
+    congr 1
+    simp [List.map_map, Function.comp_def]
+
+theorem gr_mtd_shape {r : RNSTool} {p out : RnsPoly} (hq : ∀ i, i < r.baseQ.size → (r.baseQ.q i).WF) (hs : 1 ≤ r.baseQ.size) (ht : r.t.WF)
+    (hinvt : r.invQLastModT < 2^64) (hp : gr_Shape r p) (hw : ∀ x ∈ p.getD (r.baseQ.size - 1) #[], x < 2^64)
+    (h : r.modTAndDivideQLast p = .ok out) : gr_Shape r out := by
+  rw [gr_mtd_model r p hq hs ht hinvt hp hw] at h
+  cases hm : (List.range' 0 (r.baseQ.size - 1)).mapM (fun i => gr_mtdComp (r.baseQ.q i) (r.baseQ.q (r.baseQ.size - 1)).value (r.invQLastModQ.getD i default)
+          (gr_negList r.t r.invQLastModT (p.getD (r.baseQ.size - 1) #[]).toList) (p.getD (r.baseQ.size - 1) #[]).toList (p.getD i #[]).toList) with
+  | error e => rw [hm] at h; cases h
+  | ok outs =>
+    rw [hm, gr_ok_bind] at h
+    cases h
+    have hol : outs.length = r.baseQ.size - 1 := by rw [gr_mapM_length _ _ _ hm, List.length_range']
+    have hoc : ∀ c ∈ outs, c.length = r.n := by
+      intro c0 hc0
+      refine (gr_mapM_forall' _ (fun _ c => c.length = r.n) _ ?_ _ hm c0 hc0).elim (fun _ h => h.2)
+      intro i hi c hc
+      rw [List.mem_range'_1] at hi
+      unfold gr_mtdComp at hc
+      cases hd : (List.range' 0 (p.getD i #[]).toList.length).mapM (fun j => ckAdd ((p.getD i #[]).toList.getD j 0)
+          ((r.baseQ.q i).value * 2 - (p.getD (r.baseQ.size - 1) #[]).toList.getD j 0 % (r.baseQ.q i).value -
+            ((gr_negList r.t r.invQLastModT (p.getD (r.baseQ.size - 1) #[]).toList).map
+              (fun x => (x % (r.baseQ.q i).value * (r.baseQ.q (r.baseQ.size - 1)).value) % (r.baseQ.q i).value)).getD j 0)) with
+      | error e => rw [hd] at hc; cases hc
+      | ok d =>
+        rw [hd, gr_ok_bind] at hc; cases hc
+        rw [List.length_map, gr_mapM_length _ _ _ hd, List.length_range', Array.length_toList, hp.2 i (by omega)]
+    have key : ∀ i, ((outs.map List.toArray).toArray.push (p.getD (r.baseQ.size - 1) #[])).getD i #[]
+        = ((outs.map List.toArray) ++ [p.getD (r.baseQ.size - 1) #[]]).getD i #[] := by
+      intro i; simp [Array.getD_eq_getD_getElem?, List.getD_eq_getElem?_getD]
+    refine ⟨by simp [hol]; omega, ?_⟩
+    intro i hi
+    rw [key]
+    by_cases his : i < r.baseQ.size - 1
+    · rw [gr_getD_append_left _ _ _ _ (by rw [List.length_map, hol]; exact his), List.getD_eq_getElem?_getD, List.getElem?_map,
+        List.getElem?_eq_getElem (by omega)]
+      show (outs[i]).toArray.size = r.n
+      rw [List.size_toArray]
+      exact hoc _ (List.getElem_mem _)
+    · have : i = r.baseQ.size - 1 := by omega
+      subst this
+      rw [gr_getD_append_right _ _ _ _ (by rw [List.length_map, hol]), List.length_map, hol, Nat.sub_self]
+      exact hp.2 _ (by omega)
+
+/-- **END TO END (C10, BGV division, coefficient form)**: the function generated from the Rust source of `RNSTool::mod_t_and_divide_q_last_inplace`,
+    run on the flat buffer of a polynomial holding the canonical residues of integers `X j`, returns at position `i·n + j` the residue mod `q_i` of
+    y = (X − [X]_{q_L})/q_L − [−X·q_L⁻¹]_t, and y·q_L ≡ X (mod t). -/
+theorem gr_mod_t_and_divide_q_last_inplace_bgv (r : RNSTool) (p : RnsPoly) (X : Nat → Nat)
+    (hq : ∀ i, i < r.baseQ.size → (r.baseQ.q i).WF) (hs : 2 ≤ r.baseQ.size) (ht : r.t.WF)
+    (hinv : ∀ i, i < r.baseQ.size - 1 → WFOp (r.baseQ.q i) (r.invQLastModQ.getD i default) ∧
+        ((r.invQLastModQ.getD i default).operand * (r.baseQ.q (r.baseQ.size - 1)).value) % (r.baseQ.q i).value = 1)
+    (hinvt : (r.invQLastModT * (r.baseQ.q (r.baseQ.size - 1)).value) % r.t.value = 1) (hit : r.invQLastModT < r.t.value)
+    (hinvs : r.baseQ.size - 1 ≤ r.invQLastModQ.size)
+    (hsn : r.baseQ.size * r.n < 2^64) (hs64 : r.baseQ.size < 2^64) (hp : gr_Shape r p)
+    (hX : ∀ i j, i < r.baseQ.size → j < r.n → (p.getD i #[]).getD j 0 = X j % (r.baseQ.q i).value) :
+    ∃ out, GenR.mod_t_and_divide_q_last_inplace (flatP p) r.baseQ.size r.baseQ.base.toList r.n r.invQLastModQ.toList r.t r.invQLastModT = .ok out ∧
+      ∀ i j, i < r.baseQ.size - 1 → j < r.n →
+        let qL := (r.baseQ.q (r.baseQ.size - 1)).value
+        let y : Int := ((X j - X j % qL) / qL : Nat) - ((((r.t.value - (X j % qL) % r.t.value) % r.t.value) * r.invQLastModT) % r.t.value : Nat)
+        (out.getD (i * r.n + j) 0 : Int) = y % ((r.baseQ.q i).value : Int) ∧ (y * qL - X j) % (r.t.value : Int) = 0 := by
+  have ht61 := ht.lt
+  have hc : ∀ i j, i < r.baseQ.size → j < r.n → (p.getD i #[]).getD j 0 < (r.baseQ.q i).value := by
+    intro i j hi hj; rw [hX i j hi hj]; exact Nat.mod_lt _ (by have := (hq i hi).two_le; omega)
+  have hw : ∀ x ∈ p.getD (r.baseQ.size - 1) #[], x < 2^64 := by
+    apply mem_lt_of_getD
+    intro j hj
+    rw [hp.2 _ (by omega)] at hj
+    have := hc _ j (show r.baseQ.size - 1 < r.baseQ.size by omega) hj
+    have := (hq (r.baseQ.size - 1) (by omega)).lt
+    omega
+  obtain ⟨o, ho, hv⟩ := modTAndDivideQLast_spec hq hs ht (by omega) (fun i hi => (hinv i hi).1) (hp.2 _ (by omega))
+    (fun j hj => by have := hc _ j (show r.baseQ.size - 1 < r.baseQ.size by omega) hj; have := (hq (r.baseQ.size - 1) (by omega)).lt; omega)
+    (fun i j hi hj => by have := hc i j (by omega) hj; have := (hq i (by omega)).lt; omega)
+  have hsh := gr_mtd_shape hq (by omega) ht (by omega) hp hw ho
+  refine ⟨flatP o, ?_, ?_⟩
+  · rw [gr_mod_t_and_divide_q_last_inplace_eq r p (by omega) hq ht (by omega) hinvs hsn hs64 hp hw, ho]; rfl
+  · intro i j hi hj
+    rw [gr_flatP_getD hsh (by omega) hj, hv i j hi hj, hX _ j (by omega) hj, hX i j (by omega) hj]
+    have := modTDivLast_scalar (x := X j) ht.two_le (hq _ (by omega)).two_le (hq i (by omega)).two_le (hinv i hi).2 hinvt hit
+    exact ⟨this.1, this.2.1⟩
+
+/-! ### `sm_mrq` -/
+
+theorem gr_sm_model (r : RNSTool) (p : RnsPoly) :
+    r.smMrq p =
+      ((List.range' 0 r.baseBsk.size).mapM (fun i => gr_smComp (r.baseBsk.q i) r.mTilde (r.mTilde.value / 2) (r.prodQModBsk.getD i 0) (r.invMtModBsk.getD i default)
+          ((p.getD r.baseBsk.size #[]).toList.map (fun x => mulOpV x r.negInvProdQModMt r.mTilde)) (p.getD i #[]).toList) >>= fun outs =>
+       .ok (outs.map List.toArray).toArray) := by
+  unfold RNSTool.smMrq
+  dsimp only
+  rw [mapM'_ok (g := fun x => mulOpV x r.negInvProdQModMt r.mTilde) (fun x _ => gr_mulOperandMod _ _ _), ok_bind]
+  refine Eq.trans (congrArg (fun m => m >>= _) (gr_mapM_congr _ (fun i => gr_smComp (r.baseBsk.q i) r.mTilde (r.mTilde.value / 2) (r.prodQModBsk.getD i 0)
+          (r.invMtModBsk.getD i default) ((p.getD r.baseBsk.size #[]).toList.map (fun x => mulOpV x r.negInvProdQModMt r.mTilde)) (p.getD i #[]).toList
+          >>= fun c => .ok c.toArray) _ ?hb)) ?rest
+  case hb =>
+    intro i _
+    unfold gr_smComp
+    cases MulOperand.new (r.prodQModBsk.getD i 0) (r.baseBsk.q i) with
+    | error e => rfl
+    | ok pq =>
+      simp only [gr_ok_bind]
+      rw [gr_zipM'_eq]
+      simp only [Array.size_map, Array.toList_map, List.length_map, Array.length_toList]
+      have hcg : (List.range' 0 (p.getD r.baseBsk.size #[]).size).mapM (fun j =>
+            (do
+              let temp ← if ((p.getD r.baseBsk.size #[]).toList.map (fun x => mulOpV x r.negInvProdQModMt r.mTilde)).getD j 0 ≥ r.mTilde.value / 2 then do
+                    let d ← ckSub (r.baseBsk.q i).value r.mTilde.value
+                    ckAdd (((p.getD r.baseBsk.size #[]).toList.map (fun x => mulOpV x r.negInvProdQModMt r.mTilde)).getD j 0) d
+                  else pure (((p.getD r.baseBsk.size #[]).toList.map (fun x => mulOpV x r.negInvProdQModMt r.mTilde)).getD j 0)
+              let u ← mulOperandAddMod temp pq ((p.getD i #[]).toList.getD j 0) (r.baseBsk.q i)
+              mulOperandMod u (r.invMtModBsk.getD i default) (r.baseBsk.q i)))
+          = (List.range' 0 (p.getD r.baseBsk.size #[]).size).mapM (fun j => gr_smElt (r.baseBsk.q i) r.mTilde (r.mTilde.value / 2) pq (r.invMtModBsk.getD i default)
+              (((p.getD r.baseBsk.size #[]).toList.map (fun x => mulOpV x r.negInvProdQModMt r.mTilde)).getD j 0) ((p.getD i #[]).toList.getD j 0)) := by
+        apply gr_mapM_congr
+        intro j _
+        unfold gr_smElt
+        split
+        · cases ckSub (r.baseBsk.q i).value r.mTilde.value with
+          | error e => rfl
+          | ok d =>
+            cases ckAdd (((p.getD r.baseBsk.size #[]).toList.map (fun x => mulOpV x r.negInvProdQModMt r.mTilde)).getD j 0) d with
+            | error e => rfl
+            | ok t => rfl
+        · rfl
+      rw [hcg]
+  case rest =>
+    rw [List.range_eq_range', gr_mapM_map_ok]
+    cases (List.range' 0 r.baseBsk.size).mapM (fun i => gr_smComp (r.baseBsk.q i) r.mTilde (r.mTilde.value / 2) (r.prodQModBsk.getD i 0) (r.invMtModBsk.getD i default)
+          ((p.getD r.baseBsk.size #[]).toList.map (fun x => mulOpV x r.negInvProdQModMt r.mTilde)) (p.getD i #[]).toList) with
+    | error e => rfl
+    | ok outs => rfl
+
+theorem gr_shape_cs' {p : RnsPoly} {s n : Nat} (h1 : p.size = s) (h2 : ∀ i, i < s → (p.getD i #[]).size = n) :
+    (p.toList.map Array.toList).length = s ∧ ∀ c ∈ p.toList.map Array.toList, c.length = n := by
+  refine ⟨by simp [h1], ?_⟩
+  intro c hc
+  obtain ⟨a, ha, rfl⟩ := List.mem_map.mp hc
+  obtain ⟨i, hi, rfl⟩ := List.getElem_of_mem ha
+  have hi' : i < p.size := by simpa using hi
+  have := h2 i (by rw [← h1]; exact hi')
+  rw [Array.length_toList]
+  simpa [Array.getD_eq_getD_getElem?, hi'] using this
+
+theorem gr_baseq_toList (b : RNSBase) (i : Nat) : b.base.toList.getD i gr_dflt = b.q i := gr_q_toList b i
+
+/-- **`RNSTool::sm_mrq` (generated from src/util/rns.rs) = the hand model**: input = flat buffer of the `|Bsk| + 1` components (last one mod m̃),
+    destination = any flat buffer of `|Bsk|` components (its old contents are irrelevant).  All checked operations of the routine (the operand set-up
+    `MultiplyU64ModOperand::new`, `temp += b − m̃`, the multiply-add) trap on both sides alike: no well-formedness hypotheses. -/
+theorem gr_sm_mrq_eq (r : RNSTool) (p d : RnsPoly)
+    (hp1 : p.size = r.baseBsk.size + 1) (hp2 : ∀ i, i < r.baseBsk.size + 1 → (p.getD i #[]).size = r.n)
+    (hd1 : d.size = r.baseBsk.size) (hd2 : ∀ i, i < r.baseBsk.size → (d.getD i #[]).size = r.n)
+    (hpq : r.prodQModBsk.size = r.baseBsk.size) (hpqw : ∀ x ∈ r.prodQModBsk, x < 2^64) (hinv : r.baseBsk.size ≤ r.invMtModBsk.size)
+    (hsn : (r.baseBsk.size + 1) * r.n < 2^64) (hs64 : r.baseBsk.size + 1 < 2^64) :
+    GenR.sm_mrq (flatP p) (flatP d) r.baseBsk.size r.baseBsk.base.toList r.n r.mTilde r.negInvProdQModMt r.prodQModBsk.toList r.invMtModBsk.toList
+      = (r.smMrq p).map flatP := by
+  obtain ⟨hcs, hn⟩ := gr_shape_cs' hp1 hp2
+  obtain ⟨hds, hdn⟩ := gr_shape_cs' hd1 hd2
+  unfold flatP
+  rw [gr_sm_list _ _ r.baseBsk.base.toList r.prodQModBsk.toList r.invMtModBsk.toList r.mTilde r.negInvProdQModMt r.baseBsk.size r.n
+    (by simp [RNSBase.size]) (by simpa using hpq) (by intro x hx; exact hpqw x (by simpa using hx)) (by simpa using hinv) hsn hs64 hcs hn hds hdn,
+    gr_sm_model r p]
+  simp only [gr_q_toList, gr_cs_getD, gr_ops_toList, ← gr_arr_getD]
+  cases (List.range' 0 r.baseBsk.size).mapM (fun i => gr_smComp (r.baseBsk.q i) r.mTilde (r.mTilde.value / 2) (r.prodQModBsk.getD i 0) (r.invMtModBsk.getD i default)
+          ((p.getD r.baseBsk.size #[]).toList.map (fun x => mulOpV x r.negInvProdQModMt r.mTilde)) (p.getD i #[]).toList) with
+  | error e => rfl
+  | ok outs =>
+    simp only [gr_ok_bind]
+    show Except.ok _ = Except.ok _
+    congr 1
+    simp [List.map_map, Function.comp_def]
